@@ -89,7 +89,11 @@ TrStep ==
 
 TrDispatch ==
   /\ l <= Len(Tr.ev) /\ Ev.t = "dispatch"
-  /\ Dispatch
+  /\ LET bs == {Ev.sp[i][2] : i \in DOMAIN Ev.sp}
+         total == LET RECURSIVE Sum(_)
+                      Sum(i) == IF i = 0 THEN 0 ELSE Len(Ev.sp[i][2]) + Sum(i - 1) IN Sum(Len(Ev.sp)) IN
+     /\ Chk(DispatchOk(bs, Ev.st.todoImg), "the dispatched blocks and the remaining imageinfo_todo are not a re-arrangement of the queued titles into blocks of at most the request limit")
+     /\ DispatchDo(bs, Ev.st.todoImg, total > Cardinality(Titles(bs)))
   /\ PostOk
   /\ Advance
 
